@@ -113,6 +113,46 @@ example :
 
 /-! ### what is still false on the code (each listed as a known finding; all outside Core) -/
 
+/-- `on_list` (reflections.py:690-700) over items that all have the same class keeps the LAST item's type — not the first, not the most
+    informative: `[[], [n]]` is typed by `[n]` (right: `list<list<int>>`), `[[n], []]` by `[]` (`list<list<Unknown>>`, the known finding
+    below). For every non-empty list of item types of one class. -/
+theorem on_list_last_of_class (c : Str) (hc : c ≠ s_Unknown) : ∀ (t : Ty) (ts : List Ty), (∀ u ∈ t :: ts, u.className = c) →
+    knownTypes (t :: ts) = [(t :: ts).getLast (by simp)] := by
+  have hfold : ∀ (ts : List Ty) (v : Ty), (∀ u ∈ ts, u.className = c) →
+      (ts.foldl dedupPut [(c, v)]).map (·.2) = [(v :: ts).getLast (by simp)] := by
+    intro ts
+    induction ts with
+    | nil => intro v _; rfl
+    | cons u rest ih =>
+      intro v h
+      have hu : u.className = c := h u (by simp)
+      have hstep : dedupPut [(c, v)] u = [(c, u)] := by simp [dedupPut, hu]
+      rw [List.foldl_cons, hstep, ih u (fun w hw => h w (by simp [hw]))]
+      simp [List.getLast_cons]
+  intro t ts h
+  have hfilter : (t :: ts).filter (fun u => u.className ≠ s_Unknown) = t :: ts := by
+    apply List.filter_eq_self.mpr
+    intro u hu
+    simp [h u hu, hc]
+  have ht : t.className = c := h t (by simp)
+  unfold knownTypes
+  rw [hfilter, List.foldl_cons]
+  have h0 : dedupPut [] t = [(c, t)] := by simp [dedupPut, ht]
+  rw [h0]
+  exact hfold ts t (fun u hu => h u (by simp [hu]))
+
+/-- non-vacuity, both orders: `[[], [1]]` is `list<list<int>>`, `[[1], []]` is `list<list<Unknown>>` -/
+example : inferT [] [] (.list (.cons (.list .nil) (.cons (.list (.cons (.int 1) .nil)) .nil))) = .ok (.list (.list .int)) ∧
+    inferT [] [] (.list (.cons (.list (.cons (.int 1) .nil)) (.cons (.list .nil) .nil))) = .ok (.list (.list .unknown)) := by decide +kernel
+
+/-- known finding `dict-literal-empty-first-value`: `on_dict` takes the first item whose value is not of class `Unknown`; an empty list
+    is a `list`: `{"s": [], "z": [1]}` is typed `dict<str, list<Unknown>>` — `Unknown` for a value CPython determines (outside Core) -/
+theorem dict_literal_counterexample : ∃ (e : Expr) (v : Val),
+    eval World.none [] e = .ok v ∧ inferT [] [] e = .ok (.dict .str (.list .unknown)) ∧
+    (Ty.dict .str (.list .unknown)).noUnknown = false ∧ wt [] [] e = false := by
+  refine ⟨.dict (.cons (.str ['s']) (.list .nil) (.cons (.str ['z']) (.list (.cons (.int 1) .nil)) .nil)),
+    .dict [.str ['s'], .str ['z']] [.list [], .list [.int 1]], by rfl, by decide +kernel, by decide +kernel, by decide +kernel⟩
+
 /-- known finding `list-literal-class-dedup`: `on_list` keeps one element type per CLASS, the last one
     (reflections.py:681): `[[None], [1]]` is typed `list<list<int>>` although its first element is a `list<None>`.
     (Core requires every element type of a list literal to survive that selection.) -/
